@@ -126,6 +126,7 @@ class Check:
             "stubs": self.stubs,
             "solver_time_s": round(self.solver_time, 3),
             "known_findings_hit": [w for _, w in self.known_hits],
+            "spurious_models": list(SPURIOUS)[:10],
             "solver": f"z3 {z3.get_version_string()}",
         }
         cov.update(self.extra)
@@ -148,12 +149,23 @@ class Check:
               f"known={len(self.known_hits)}")
         if self.inconclusive:
             print("  inconclusive:", ", ".join(self.inconclusive[:10]))
-        return EXIT_VIOLATION if self.violations else EXIT_OK
+        if self.violations:
+            return EXIT_VIOLATION
+        if SPURIOUS:
+            print(f"HARNESS-ERROR {self.pid}: {len(SPURIOUS)} solver model(s) did not reproduce on the real code (encoding no longer matches the code)")
+            return EXIT_HARNESS
+        return EXIT_OK
+
+
+SPURIOUS = []      # models that did not reproduce on the real code (encoding or stub wrong)
 
 
 def spurious(pid, what):
-    print(f"SPURIOUS property={pid} {what}")
-    raise HarnessError(f"counterexample did not reproduce on the real code: {what}")
+    """A solver model that does not reproduce on the real code: the encoding misrepresents the code.
+    Recorded; the run continues (a *confirmed* violation elsewhere still counts), and ends with the
+    reserved harness-error exit code if nothing else decided it."""
+    print(f"SPURIOUS property={pid} {what}"[:1200])
+    SPURIOUS.append(what[:300])
 
 
 def model_dict(m):
